@@ -52,6 +52,10 @@ Definition entry_validate (c : kconfig) : list bytes :=
   | Some ps => tc 75 :: map hex (sort_uniq ps)
   end.
 
+(* cnames: the cookie-name variables after main.go's configuration: Login LoginCount Logout Retry Session *)
+Definition entry_cookie_names (c : kconfig) : list bytes :=
+  let n := main_cnames c in map hex [nm_login n; nm_logincount n; nm_logout n; nm_retry n; nm_session n].
+
 (* cmatch: Ingresses.MatchingPath *)
 Definition entry_match (c : kconfig) (req : bytes) : list bytes :=
   match parse_ingresses c with
@@ -111,6 +115,40 @@ Definition entry_script (c : kconfig) (https : bool) (host hostport : bytes) (no
     let e := {| e_cfg := c; e_ingresses := ings; e_hostport := hostport; e_https := https; e_host := host; e_trust := false |} in
     run_script e {| b_jar := []; b_now := now0; b_session := false |} probes its
   end.
+
+(* scripts of an SSO deployment with a proxy: requests to the server (IReq, IFollow) and to the proxy (IProxyReq) *)
+Inductive pitem :=
+| PItem (it : item)
+| IProxyReq (dt : Z) (q : breq) (f : cfault).
+
+Fixpoint run_script_px (e pe : site_env) (b : browser) (probes : list origin) (its : list pitem) : list bytes :=
+  match its with
+  | [] => []
+  | PItem (IReq dt q f) :: r =>
+    let '(rs, b') := do_request e (sleep b dt) q f in
+    tc 59 :: tresponse rs ++ tprobes (e_trust e) (b_now b') (b_jar b') probes ++ run_script_px e pe b' probes r
+  | PItem (IFollow via q fs) :: r =>
+    let '(sts, b') := follow 50 e via b q fs in
+    tc 59 :: tz (Z.of_nat (length sts)) :: map tz sts ++ tprobes (e_trust e) (b_now b') (b_jar b') probes
+      ++ run_script_px e pe b' probes r
+  | IProxyReq dt q f :: r =>
+    let '(rs, b') := do_request_proxy pe (sleep b dt) q f in
+    tc 59 :: tresponse rs ++ tprobes (e_trust e) (b_now b') (b_jar b') probes ++ run_script_px e pe b' probes r
+  end.
+
+Definition entry_script_px (c : kconfig) (https : bool) (host hostport : bytes) (now0 : Z)
+           (phttps : bool) (phost phostport : bytes) (pingresses : list bytes) (probes : list origin) (its : list pitem)
+  : list bytes :=
+  match parse_ingresses_full c, ingress_list pingresses with
+  | Some ings, Some pings =>
+    let e := {| e_cfg := c; e_ingresses := ings; e_hostport := hostport; e_https := https; e_host := host; e_trust := false |} in
+    let pe := {| e_cfg := c; e_ingresses := pings; e_hostport := phostport; e_https := phttps; e_host := phost; e_trust := false |} in
+    run_script_px e pe {| b_jar := []; b_now := now0; b_session := false |} probes its
+  | _, _ => [tc 69]
+  end.
+
+Definition ck_pitem (it : item) : pitem := PItem it.
+Definition ck_proxy_req (dt : Z) (q : breq) (f : cfault) : pitem := IProxyReq dt q f.
 
 (* ------------------------------------------------------------------ the jar on its own *)
 
